@@ -169,6 +169,9 @@ class Engine(ExprMixin, BuiltinMixin):
             names.append(args.kwarg.arg)
         for n in names:
             ts = case.get(n, c.params.get(n))
+            if isinstance(ts, str) and ts == "None":
+                st.env[n] = NONE
+                continue
             if ts is None:
                 if n == "self" and ci is not None:
                     ts = ci.name
@@ -205,6 +208,7 @@ class Engine(ExprMixin, BuiltinMixin):
         self.paths_run += 1
         self._fresh_ctx(c)
         self.cur, self.cur_mod, self.cur_cls, self.case_label = c, mi, ci, label
+        self.case_env = dict(case)
         self.spec_mode = 0
         self.inline_depth = 0
         st = State(self.ctx)
@@ -241,8 +245,11 @@ class Engine(ExprMixin, BuiltinMixin):
             g = z3.Not(self.truth(old, self.eval_spec(old.clone(), cond, None)))
             self.oblige(st, g, "raises", f"must-raise-{exc}", loc, f"raises {exc} iff {cond}")
         if c.returns is not None:
-            ret = self.coerce_to_type(st, ret, parse_type(c.returns))
+            ret = self.coerce_to_type(st, ret, parse_type(self.ret_type(c)))
         env_extra = {"result": ret}
+        for gname, gsrc in c.ghost_out.items():
+            lam = ast.parse(gsrc.strip(), mode="eval").body
+            env_extra[gname] = static("closure", (lam, st.frames[0], self.cur_mod, self.cur_cls))
         for lab, e in c.labelled("ensures"):
             stc = st.clone()
             g = self.truth(stc, self.eval_spec(stc, e, old, env_extra))
@@ -250,6 +257,14 @@ class Engine(ExprMixin, BuiltinMixin):
             self.oblige(stc, g, "post", lab, loc, e)
         # cover: the end of the function is reachable under the precondition
         self.oblige(st, z3.BoolVal(True), "cover", "normal-exit", loc, "reachability of a normal return", expect_sat=True)
+
+    def ret_type(self, c):
+        """a return type may depend on the type case being verified ({"scalar": "float", "list": "list[float]"})"""
+        r = c.returns
+        if isinstance(r, dict):
+            key = self.case_env.get(r["case"], r.get("default"))
+            return r[key]
+        return r
 
     def coerce_to_type(self, st, v: V, t):
         if t[0] == "tuple" and v.t[0] == "tuple" and len(t[1]) == len(v.items):
@@ -537,7 +552,7 @@ class Engine(ExprMixin, BuiltinMixin):
 
     def _havoc_locs(self, st: State, locs, env):
         for a in locs:
-            if a in ("alloc", "alloc?"):
+            if a in ("alloc", "alloc?", "rng", "evals"):
                 continue
             if a == "*":
                 for name in list(st.heap):
